@@ -232,6 +232,50 @@ func runC15(p *core.Prog, r *core.Report, tier string) {
 		checkCoAppend(p, r, f, "C15.f")
 	}
 
+	// (f') a member's aggregator selections accumulate: the per-validator inner map of the duty is created only when absent
+	nInit := checkNestedInitOnlyWhenAbsent(p, r, ds, "C15.f", p.FuncsIn("services/synccommitteemessenger"),
+		"a validator selected as aggregator for several subcommittees of one slot keeps only the last one, and no contribution is produced for the others")
+	r.Floor("C15.f inner selection maps created", nInit, 1)
+
+	// (h) the start-up paths cover the whole preparation window: the periodic ticker prepares the next period exactly
+	// when the distance to it equals syncCommitteePreparationEpochs, so a start (or the Altair fork) at any distance up
+	// to and INCLUDING that value must schedule the period itself
+	nPrep := 0
+	for _, f := range p.FuncsIn(ctrlRel) {
+		core.EachInstr(f, func(in ssa.Instruction) {
+			ifi, ok := in.(*ssa.If)
+			if !ok {
+				return
+			}
+			c := core.DecodeCond(ds, ifi)
+			if c.Op == "" {
+				return
+			}
+			isPrep := func(d *core.VD) bool { return strings.Contains(d.String(), "syncCommitteePreparationEpochs") }
+			var rel string
+			switch {
+			case isPrep(c.Y) && !isPrep(c.X):
+				rel = c.RelOnEdge(0)
+			case isPrep(c.X) && !isPrep(c.Y):
+				rel = core.FlipRel(c.RelOnEdge(0))
+			default:
+				return
+			}
+			if c.Y.Kind == "binop" || c.X.Kind == "binop" && isPrep(c.X) {
+				// period - window on one side: the ticker's equality
+				if rel == "==" {
+					nPrep++
+					r.Hold("C15.h", fmt.Sprintf("%s|preparation-window#%d", core.FnKey(f), nPrep), p.Pos(ifi.Pos()), "the ticker prepares at distance == window")
+				}
+				return
+			}
+			nPrep++
+			r.Check(rel == "<=" || rel == "==", "C15.h", fmt.Sprintf("%s|preparation-window#%d", core.FnKey(f), nPrep), p.Pos(ifi.Pos()), "distance "+rel+" window: the boundary epoch is covered",
+				"the distance to the next period is compared with the preparation window by '"+rel+"': a start exactly at the boundary is covered neither here nor by the ticker (which fires at distance == window, one epoch later), so the next period gets no jobs")
+		})
+	}
+	r.Floor("C15.h comparisons with the preparation window", nPrep, 3)
+
 	// ---- (g) fork epoch data flow ----
 	checkForkEpochFlow(p, r, ds, "C15.g")
 }
